@@ -410,12 +410,17 @@ where
 
                     // After the reduction we need to run lexer again as the set
                     // of possible tokens in the new state may be different.
-                    // But, the layout must remain the same.
+                    // But, the layout must remain the same. If no layout was
+                    // consumed before the reduction (the previous lookahead was
+                    // found right at the current position), the layout consumed
+                    // by this run belongs to the new lookahead and is kept.
                     // TODO: This should be optimized to prevent repetitions of the same
                     //       tokens recognitions.
                     let layout = context.layout_ahead();
                     next_token = self.next_token(input, context, &layout_parser)?;
-                    context.set_layout_ahead(layout);
+                    if layout.is_some() {
+                        context.set_layout_ahead(layout);
+                    }
                     log!("{}: {:?}", "Token ahead".paint(LOG), next_token);
                 }
                 Action::Accept => {
